@@ -1528,6 +1528,298 @@ theorem C02_system_accepted_survives (P : Params) (σ : Nat → St) (h : SysReac
     r ∈ (σ id).g.term ∨ ∃ m, recoverMeta P (σ id).disk = some m ∧ r ∈ m.to :=
   C02_accepted_survives P (σ id) (C02_system P σ h id) hacc hq r hr
 
+/-! ## header-only messages: the zero-length body -/
+
+/-- A zero-length write changes nothing.  `io.Copy` makes no `Write` call at all for an empty body; the
+model keeps `write .body []` in `storeOps`, which by this lemma is a stutter step (the driver takes it
+silently, op lines count real calls).  `Choice.accept` puts no condition on the body, so every theorem
+of this file holds for header-only messages as it stands. -/
+theorem applyOp_write_nil (d : Disk) (k : FKind) : applyOp d (.write k []) = d := by
+  cases d; cases k <;> simp [applyOp, Disk.get, Disk.set] <;> split <;> simp_all
+
+theorem C02_empty_write_stutter (P : Params) (s s' : St) (m : SMeta) (h : Bytes)
+    (hpc : s.pc = .store m h [] 3) (hs : step? P s .op = some s') :
+    s'.disk = s.disk ∧ s'.g = s.g ∧ s'.pc = .store m h [] 4 := by
+  simp [step?, hpc, storeOps, updateOps] at hs
+  subst hs
+  simp [applyOp_write_nil]
+
+/-- **An empty body file is not a missing one.**  While an accepted header-only message is neither
+finished nor quarantined, its body file exists (empty, durable) and recovery — `readDiskQueue`, then
+`openMessage` — yields the newest committed metadata: the message is attempted, not cleaned up. -/
+theorem C02_empty_body_recovered (P : Params) (s : St) (h : Reach P s) (hacc : s.g.accepted = true)
+    (hq : s.g.quarantined = false) (hrem : s.g.removing = false) (hb : s.g.body = []) :
+    s.disk.body = some ⟨[], []⟩ ∧ ∃ m, s.g.commits.head? = some m ∧ recoverMeta P s.disk = some m := by
+  have hi := (inv_reach h).disk
+  have hm := hi.accMeta hacc hrem hq
+  refine ⟨?_, recoverMeta_of_inv hi hm hrem⟩
+  obtain ⟨_, hbody⟩ := hi.present hm hrem
+  cases hbd : s.disk.body with
+  | none => simp [hbd] at hbody
+  | some fb => rw [hi.contentB hm fb hbd, hb]
+
+/-! ## a backlog larger than `max_parallelism`
+
+`dispatch` starts one goroutine per due slot; the goroutine takes one of `max_parallelism` delivery
+slots (`deliverySemaphore`) before it opens the message, and gives it back when the attempt is over
+(after `removeFromDisk`, or after `updateMetadataOnDisk` and the `wheel.Add` of the retry).  The
+system below is `SysReach` with that bound: a `dispatch` step needs a free slot.  Nothing else couples
+the ids, so (1) the bounded system is a sub-system of the free one and every theorem carries over,
+(2) whoever holds a slot can always go on by its own steps and gives the slot back after at most five
+of them, whatever the other ids do — a waiting slot is never starved by a holder that waits for it. -/
+
+/-- The program points at which the delivery goroutine of the id holds a delivery slot. -/
+def _root_.MaddyVerif.SpoolFS.Pc.holdsSlot : Pc → Bool
+  | .attempting _ => true
+  | .update _ _ => true
+  | .remove _ => true
+  | _ => false
+
+/-- Number of ids of `ids` that hold a delivery slot. -/
+def busy (σ : Nat → St) (ids : List Nat) : Nat := ids.countP (fun i => (σ i).pc.holdsSlot)
+
+def _root_.MaddyVerif.SpoolFS.Choice.isDispatch : Choice → Bool
+  | .dispatch => true
+  | _ => false
+
+/-- The queue with `max_parallelism = par` over the message ids `ids`. -/
+inductive SysReachPar (P : Params) (par : Nat) (ids : List Nat) : (Nat → St) → Prop
+  | init : SysReachPar P par ids (fun _ => {})
+  | step {σ : Nat → St} (id : Nat) (c : Choice) (t : St) :
+      SysReachPar P par ids σ → id ∈ ids → c.isCrash = false → step? P (σ id) c = some t →
+      (c.isDispatch = true → busy σ ids < par) →
+      SysReachPar P par ids (fun j => if j = id then t else σ j)
+  | crash {σ σ' : Nat → St} (cs : Nat → Choice) :
+      SysReachPar P par ids σ → (∀ id, (cs id).isCrash = true) → (∀ id, step? P (σ id) (cs id) = some (σ' id)) →
+      SysReachPar P par ids σ'
+
+theorem sysPar_sub {P : Params} {par : Nat} {ids : List Nat} {σ : Nat → St}
+    (h : SysReachPar P par ids σ) : SysReach P σ := by
+  induction h with
+  | init => exact SysReach.init
+  | step id c t _ _ hc hs _ ih => exact SysReach.step id c t ih hc hs
+  | crash cs _ hc hs ih => exact SysReach.crash cs ih hc hs
+
+/-- The property for a spool of any size under any `max_parallelism`: accepted, not quarantined mail
+survives every crash (all the per-id theorems apply through `C02_system`). -/
+theorem C02_backlog_accepted_survives (P : Params) (par : Nat) (ids : List Nat) (σ : Nat → St)
+    (h : SysReachPar P par ids σ) (id : Nat)
+    (hacc : (σ id).g.accepted = true) (hq : (σ id).g.quarantined = false) (r : Addr)
+    (hr : r ∈ (σ id).g.orig) :
+    r ∈ (σ id).g.term ∨ ∃ m, recoverMeta P (σ id).disk = some m ∧ r ∈ m.to :=
+  C02_system_accepted_survives P σ (sysPar_sub h) id hacc hq r hr
+
+/-- After a restart every complete stored message of the backlog waits for a slot with the metadata
+recovery computed, however many there are. -/
+theorem C02_backlog_all_scheduled (P : Params) (s : St) (m : SMeta) (hpc : s.pc = .down)
+    (hrec : recoverMeta P s.disk = some m) :
+    ∃ s1, step? P s .restart = some s1 ∧ s1.pc = .sched none ∧ s1.disk = s.disk := by
+  unfold recoverMeta at hrec
+  cases hsc : scanMsg P.codec s.disk with
+  | skip => simp [hsc] at hrec
+  | clean ops => simp [hsc] at hrec
+  | sched => exact ⟨{ s with pc := .sched none }, by simp [step?, hpc, hsc], rfl, rfl⟩
+
+/-- Own steps a slot holder still has to make before the slot is free again (at most). -/
+def slotFuel : Pc → Nat
+  | .attempting _ => 5
+  | .update _ i => 4 - i
+  | .remove i => 3 - i
+  | _ => 0
+
+/-- **A slot holder never waits for anybody.**  In every reachable state in which the id holds a
+delivery slot it has a step of its own that is enabled — no crash, no dispatch, nothing that another
+id or the time wheel has to do first … -/
+theorem C02_slot_holder_can_step (P : Params) (s : St) (h : Reach P s) (hh : s.pc.holdsSlot = true) :
+    ∃ c t, c.isCrash = false ∧ c.isDispatch = false ∧ step? P s c = some t := by
+  have hp := (inv_reach h).pc
+  cases hpc : s.pc with
+  | attempting m =>
+    refine ⟨.outcome (fun _ => none), ?_⟩
+    simp only [step?, hpc]
+    split <;> exact ⟨_, rfl, rfl, rfl⟩
+  | update m i =>
+    simp only [PcInv, hpc] at hp
+    have hi : i < (updateOps P.codec m).length := by simp [updateOps]; exact hp.1
+    refine ⟨.op, ?_⟩
+    simp only [step?, hpc, List.getElem?_eq_getElem hi]
+    exact ⟨_, rfl, rfl, rfl⟩
+  | remove i =>
+    simp only [PcInv, hpc] at hp
+    have hi : i < removeOps.length := by simp [removeOps]; exact hp.1
+    refine ⟨.op, ?_⟩
+    simp only [step?, hpc, List.getElem?_eq_getElem hi]
+    exact ⟨_, rfl, rfl, rfl⟩
+  | _ => simp [hpc, Pc.holdsSlot] at hh
+
+/-- … and every such step either gives the slot back or brings that nearer: after at most five own
+steps (the outcome of the attempt, then the three removals or the four calls of the metadata update,
+whose last one also puts the retry into the time wheel) the slot is free for the next message. -/
+theorem C02_slot_released (P : Params) (s t : St) (c : Choice) (hh : s.pc.holdsSlot = true)
+    (hc : c.isCrash = false) (hs : step? P s c = some t) :
+    t.pc.holdsSlot = false ∨ slotFuel t.pc < slotFuel s.pc := by
+  cases hpc : s.pc with
+  | attempting m =>
+    cases c <;> simp [step?, hpc, Choice.isCrash] at hs hc
+    · rename_i e
+      split at hs <;> (cases hs; simp [slotFuel])
+    · cases hs; simp [Pc.holdsSlot]
+  | update m i =>
+    cases c <;> simp [step?, hpc, Choice.isCrash] at hs hc
+    split at hs
+    · rename_i o ho
+      cases hs
+      have hi : i < 4 := by
+        have := (List.getElem?_eq_some_iff.mp ho).1
+        simpa [updateOps] using this
+      simp only []
+      split
+      · simp [Pc.holdsSlot]
+      · right; simp [slotFuel]; omega
+    · cases hs
+  | remove i =>
+    cases c <;> simp [step?, hpc, Choice.isCrash] at hs hc
+    split at hs
+    · rename_i o ho
+      cases hs
+      have hi : i < 3 := by
+        have := (List.getElem?_eq_some_iff.mp ho).1
+        simpa [removeOps] using this
+      simp only []
+      split
+      · simp [Pc.holdsSlot]
+      · right; simp [slotFuel]; omega
+    · cases hs
+  | _ => simp [hpc, Pc.holdsSlot] at hh
+
+/-- Only `dispatch` makes a slot holder: no other step of an id takes a delivery slot. -/
+theorem C02_only_dispatch_takes_slot (P : Params) (s t : St) (c : Choice) (hs : step? P s c = some t)
+    (hd : c.isDispatch = false) (ht : t.pc.holdsSlot = true) : s.pc.holdsSlot = true := by
+  cases c with
+  | dispatch => simp [Choice.isDispatch] at hd
+  | accept r h b nf =>
+    simp only [step?] at hs
+    split at hs
+    · split at hs <;> (cases hs; try simp [Pc.holdsSlot] at ht)
+    · cases hs
+  | op =>
+    cases hpc : s.pc with
+    | store m h b i =>
+      simp only [step?, hpc] at hs
+      split at hs
+      · cases hs; dsimp only at ht; split at ht <;> simp [Pc.holdsSlot] at ht
+      · cases hs
+    | abortRm i =>
+      simp only [step?, hpc] at hs
+      split at hs
+      · split at hs <;> (cases hs; simp [Pc.holdsSlot] at ht)
+      · cases hs
+    | update m i => simp [Pc.holdsSlot]
+    | remove i => simp [Pc.holdsSlot]
+    | clean ops =>
+      cases ops with
+      | nil => simp [step?, hpc] at hs
+      | cons o rest =>
+        simp only [step?, hpc] at hs
+        cases hs; dsimp only at ht; split at ht <;> simp [Pc.holdsSlot] at ht
+    | quarantine => simp only [step?, hpc] at hs; cases hs; simp [Pc.holdsSlot] at ht
+    | fresh => simp [step?, hpc] at hs
+    | stored m => simp [step?, hpc] at hs
+    | sched mem => simp [step?, hpc] at hs
+    | attempting m => simp [Pc.holdsSlot]
+    | fin => simp [step?, hpc] at hs
+    | down => simp [step?, hpc] at hs
+  | commit => cases hpc : s.pc <;> simp [step?, hpc] at hs; cases hs; simp [Pc.holdsSlot] at ht
+  | abort => cases hpc : s.pc <;> simp [step?, hpc] at hs; cases hs; simp [Pc.holdsSlot] at ht
+  | outcome e => cases hpc : s.pc <;> simp [step?, hpc] at hs; simp [Pc.holdsSlot]
+  | panic => cases hpc : s.pc <;> simp [step?, hpc] at hs; simp [Pc.holdsSlot]
+  | crash keep => simp [step?] at hs; cases hs; simp [Pc.holdsSlot] at ht
+  | tornCrash n keep =>
+    simp only [step?] at hs
+    split at hs
+    · cases hs; simp [Pc.holdsSlot] at ht
+    · cases hs
+  | restart =>
+    cases hpc : s.pc <;> simp [step?, hpc] at hs
+    split at hs <;> (cases hs; simp [Pc.holdsSlot] at ht)
+
+theorem busy_cons (σ : Nat → St) (a : Nat) (l : List Nat) :
+    busy σ (a :: l) = busy σ l + (if (σ a).pc.holdsSlot = true then 1 else 0) := by
+  simp [busy, List.countP_cons]
+
+theorem busy_congr (σ τ : Nat → St) (ids : List Nat) (h : ∀ i, i ∈ ids → (τ i).pc.holdsSlot = (σ i).pc.holdsSlot) :
+    busy τ ids = busy σ ids := by
+  induction ids with
+  | nil => rfl
+  | cons a l ih =>
+    rw [busy_cons, busy_cons, ih (fun i hi => h i (List.mem_cons_of_mem a hi)), h a (List.mem_cons_self ..)]
+
+theorem busy_update_le_succ (σ : Nat → St) (ids : List Nat) (id : Nat) (t : St) (hn : ids.Nodup) :
+    busy (fun j => if j = id then t else σ j) ids ≤ busy σ ids + 1 := by
+  induction ids with
+  | nil => simp [busy]
+  | cons a l ih =>
+    have hn' := List.nodup_cons.mp hn
+    rw [busy_cons, busy_cons]
+    by_cases ha : a = id
+    · subst ha
+      have hl : busy (fun j => if j = a then t else σ j) l = busy σ l :=
+        busy_congr σ _ l (fun i hi => by
+          have : i ≠ a := fun e => hn'.1 (e ▸ hi)
+          simp [this])
+      rw [hl]
+      split <;> split <;> omega
+    · have := ih hn'.2
+      simp only [ha, if_false]
+      omega
+
+theorem busy_update_le (σ : Nat → St) (ids : List Nat) (id : Nat) (t : St)
+    (h : t.pc.holdsSlot = true → (σ id).pc.holdsSlot = true) :
+    busy (fun j => if j = id then t else σ j) ids ≤ busy σ ids := by
+  induction ids with
+  | nil => simp [busy]
+  | cons a l ih =>
+    rw [busy_cons, busy_cons]
+    by_cases ha : a = id
+    · subst ha
+      simp only [if_true]
+      cases ht : t.pc.holdsSlot
+      · simp; omega
+      · simp [h ht]; exact ih
+    · simp only [ha, if_false]
+      omega
+
+theorem crash_pc_down {P : Params} {s t : St} {c : Choice} (hc : c.isCrash = true)
+    (hs : step? P s c = some t) : t.pc = .down := by
+  cases c <;> simp [Choice.isCrash] at hc
+  · simp [step?] at hs; subst hs; rfl
+  · simp only [step?] at hs
+    split at hs
+    · cases hs; rfl
+    · cases hs
+
+/-- The bounded system respects the bound: never more than `max_parallelism` ids hold a delivery slot. -/
+theorem C02_backlog_bound (P : Params) (par : Nat) (ids : List Nat) (σ : Nat → St)
+    (h : SysReachPar P par ids σ) (hn : ids.Nodup) : busy σ ids ≤ par := by
+  induction h with
+  | init => simp [busy, Pc.holdsSlot, List.countP_eq_zero.mpr]
+  | @step σ0 id c t _ _ _ hs hd ih =>
+    cases hdc : c.isDispatch with
+    | true =>
+      have := busy_update_le_succ σ0 ids id t hn
+      have := hd hdc
+      omega
+    | false =>
+      have := busy_update_le σ0 ids id t (fun ht => C02_only_dispatch_takes_slot P _ t c hs hdc ht)
+      omega
+  | @crash σ0 σ1 cs _ hc hs _ =>
+    have : busy σ1 ids = 0 := by
+      unfold busy
+      rw [List.countP_eq_zero]
+      intro i _
+      simp [crash_pc_down (hc i) (hs i), Pc.holdsSlot]
+    omega
+
 /-! ## T1: the model's operation lists are the call skeleton of the current source -/
 
 section T1
@@ -1763,6 +2055,21 @@ example : (runChoices { P0 with maxTries := 3 } {}
       ([.accept [1, 2] [83, 58, 120, 13, 10] [104, 105] false] ++ demoNull.drop 1)).map (fun s =>
     (s.g.term, s.g.dlv, s.g.reported, s.g.gaveUp, recoverMeta P0 s.disk)) =
     some ([2], [], [2], [], some ⟨[1], [(1, 1)], false⟩) := by rfl
+
+/-- A header-only message (zero-length body): accepted, the process stops, restart, the time wheel
+fires.  Hypotheses of `C02_empty_body_recovered` hold; the body file exists and is empty; the attempt
+is made for both recipients and the id holds a delivery slot (`C02_slot_holder_can_step`). -/
+def demoEmpty : List Choice :=
+  [.accept [1, 2] [83, 58, 120, 13, 10] [] false] ++ List.replicate 10 .op ++
+  [.commit, .crash (fun _ => 0), .restart, .dispatch]
+
+example : (runChoices P0 {} demoEmpty).map (fun s =>
+    (s.g.accepted, s.g.quarantined, s.g.removing, s.g.body, s.disk.body, s.pc.holdsSlot, s.g.attempts)) =
+    some (true, false, false, [], some ⟨[], []⟩, true, [[1, 2]]) := by rfl
+
+/-- The guard of `SysReachPar` is not vacuous: with that id in its attempt one of the ids 0, 1 holds a
+slot, so under `max_parallelism = 1` the other one cannot be dispatched before the slot is given back. -/
+example : (runChoices P0 {} demoEmpty).map (fun s => busy (fun j => if j = 0 then s else {}) [0, 1]) = some 1 := by rfl
 
 theorem demoTorn_runs : (runChoices P0 {} demoTorn).isSome = true := by decide
 
